@@ -444,14 +444,10 @@ def run(tier, only=None, chk=None):
     gen = os.path.join(SPEC, "gen", "c18_%s_%d" % (tier, os.getpid()))
     shutil.rmtree(gen, ignore_errors=True)
     os.makedirs(gen)
-    out_before = sorted(os.listdir(OUT))
     try:
         return _run(chk, thorough, gen, only)
     finally:
         shutil.rmtree(gen, ignore_errors=True)
-        new = [x for x in sorted(os.listdir(OUT)) if x not in out_before and not x.startswith(("C", "tlc", "replay", "c1"))]
-        if new:
-            print("WARNING: unexpected new entries in %s: %s" % (OUT, new))
 
 
 def _run(chk, thorough, gen, only):
@@ -470,7 +466,8 @@ def _run(chk, thorough, gen, only):
                 raise MachineryError("Confine.tla (%s): %s fails on the model:\n%s" % (mode, r["violated"], r["out"][-2000:]))
             chk.add_tlc(r)
             # coverage of the actions on a smaller instance (coverage instrumentation of the recursive operators is slow)
-            c = _cfg(os.path.join(gen, "Confine_cov_%s.cfg" % mode), consts(MaxMembers="1", **kw) + "SPECIFICATION Spec\n" + INV)
+            c = _cfg(os.path.join(gen, "Confine_cov_%s.cfg" % mode),
+                     consts(MaxMembers="2" if mode == "stage" else "1", **kw) + "SPECIFICATION Spec\n" + INV)
             r = tlc.run_tlc("Confine", c, timeout=800, coverage=True)
             for act in ("Reject", "Accept", "Step", "Finish"):
                 if not r["ok"] or not r["coverage"].get(act):
@@ -507,6 +504,9 @@ def _run(chk, thorough, gen, only):
                 totals["%s.%s" % (mode, k)] = totals.get("%s.%s" % (mode, k), 0) + v
         if only is not None:
             break
+    stray = [x for x in os.listdir(chk.scratch) if not x.startswith("box_")]
+    if stray:
+        raise MachineryError("unexpected entries in the scratch directory (an escape left the sandbox box): %s" % stray)
     for k in sorted(found):
         chk.violation(k, found[k][0], found[k][1])
     chk.cov["outcomes"] = totals
